@@ -1821,7 +1821,8 @@ ANCHOR_PREFIX = ("psd_",)
 
 def run(chk):
     from qats import TimeSeries
-    chk.extra["rule"] = RULE
+    from . import c13_long as _cl
+    chk.extra["rule"] = RULE + "; long-records: " + " ".join(_cl.__doc__.split())
     chk.partial += [
         "area under the density = variance of a stationary signal: the exact identity area = mean over the segments of "
         "sum((w*y)^2)/sum(w^2) is proved for the model over the reals (Parseval with one-sided folding; theorems "
@@ -2105,6 +2106,13 @@ def run(chk):
         chk.nontriv(repr(case))
         chk.dist("long:%s:dt=%g" % (api, dt))
 
+    # ---- long records: lengths / segment lengths / segment counts around 1000, 1024, 4096, 10000, 65536; structure in the last segment ------
+    from . import c13_long
+    for case, label in c13_long.gen_long(chk, pick_spell):
+        oracle_cases.append(case)
+        chk.nontriv(repr(case))
+        chk.dist(label)
+        chk.dist("long-records:n=%d" % (case["sig"]["n"] if "sig" in case else max(s_["sig"]["n"] for s_ in case["series"])))
     # ---- dedicated guard / default cases --------------------------------------------------------------------------------------------------
     for _ in range(30 if q else 500):
         n, dt = rng.randint(8, 120), pick_dt(rng)
